@@ -247,7 +247,8 @@ class C14(core.Check):
         FileSession._load and the existence test guarding adoption must be what the model computes"""
         import ast
         src = open(os.path.join(core.REPO, 'cherrypy', 'lib', 'sessions.py')).read()
-        mod = ast.parse(src)
+        from ..translate import pynorm
+        mod = pynorm.normalise(ast.parse(src))   # flag locals and extracted predicates folded back
         classes = {n.name: n for n in mod.body if isinstance(n, ast.ClassDef)}
 
         def fn(cls, name):
